@@ -84,24 +84,31 @@ def gen(rng, size='small'):
         script.append(cmds)
 
     n_ops = rng.randint(4, 14) if size == 'small' else rng.randint(10, 60)
+    # a fifth of the scenarios are pause-heavy: the same asset paused again while it already has paused events, interleaved with
+    # pauses of other assets and new events, so that the paused events of one asset are not adjacent in the paused list
+    pausey = rng.random() < 0.2
+    cut = (0.40, 0.52, 0.64, 0.70, 0.88)
+    if pausey:
+        cut = (0.42, 0.68, 0.82, 0.84, 0.95)
+        n_ops = rng.randint(10, 22) if size == 'small' else rng.randint(20, 60)
     ops = []
     est = base
     if base:
         ops += [('sched', base, prio(), rng.choice(assets), rng.randrange(n_acts)), ('run', base)]
     for _ in range(n_ops):
         r = rng.random()
-        if r < 0.40:
+        if r < cut[0]:
             t = est + dts()
             if rng.random() < 0.05:
                 t = max(0, est - rng.choice([1, 1, 2, 3, 5, 10]))     # malformed: possibly in the past
             ops.append(('sched', t, prio(), rng.choice(assets), rng.randrange(n_acts)))
-        elif r < 0.52:
+        elif r < cut[1]:
             ops.append(('pause', rng.choice(assets)))
-        elif r < 0.64:
+        elif r < cut[2]:
             ops.append(('unpause', rng.choice(assets)))
-        elif r < 0.70:
+        elif r < cut[3]:
             ops.append(('cancel', rng.choice(assets)))
-        elif r < 0.88:
+        elif r < cut[4]:
             ops.append(('step',))
             est += rng.choice([0, 0, 1, 2])
         else:
